@@ -635,7 +635,7 @@ func (c *Collection) setLastCas(txn *sql.Tx, cas CAS) (err error) {
 // document being modified. The function returns an event to be posted.
 func (c *Collection) withNewCas(fn func(txn *sql.Tx, newCas CAS) (*event, error)) error {
 	var e *event
-	err := c.bucket.inTransaction(func(txn *sql.Tx) error {
+	err := c.bucket.inTransactionThen(func(txn *sql.Tx) error {
 		newCas := uint64(hlc.Now())
 		verifNote("txn.cas", c.bucket.name, newCas)
 		var err error
@@ -644,9 +644,13 @@ func (c *Collection) withNewCas(fn func(txn *sql.Tx, newCas CAS) (*event, error)
 			return err
 		}
 		return c.setLastCas(txn, newCas)
+	}, func() {
+		if e != nil {
+			c._postNewEvent(e)
+		}
 	})
 	if err == nil && e != nil {
-		c.postNewEvent(e)
+		c.bucket.expManager.scheduleExpirationAtOrBefore(e.exp)
 	}
 	return err
 }
